@@ -41,8 +41,8 @@ BAD = {
     "start_time": ["float_mjd", "array_time", "junk_string", "quantity"],
     "center_freq": ["plain_number", "wrong_unit", "array", "array1", "none"],
     "chan_bw": ["plain_number", "wrong_unit", "array", "array1", "array11", "zero", "negative", "none"],
-    "freq_align": ["middle", "none", "number", "upper"],
-    "pol_type": ["elliptical", "none", "number", "Linear"],
+    "freq_align": ["middle", "none", "number", "upper", "nparray0", "nparray1", "list"],
+    "pol_type": ["elliptical", "none", "number", "Linear", "nparray0", "nparray1"],
     "meta": ["number", "string", "list_of_scalars"],
 }
 
@@ -55,9 +55,11 @@ def bad_value(arg, kind):
     if arg == "start_time":
         return {"float_mjd": 59867.2442234, "array_time": Time([58000.0, 58001.0], format="mjd"), "junk_string": "not a time", "quantity": 5 * u.s}[kind]
     if arg == "freq_align":
-        return {"middle": "middle", "none": None, "number": 1, "upper": "TOP"}[kind]
+        return {"middle": "middle", "none": None, "number": 1, "upper": "TOP", "nparray0": np.array("bottom"), "nparray1": np.array(["top"]),
+                "list": ["top"]}[kind]
     if arg == "pol_type":
-        return {"elliptical": "elliptical", "none": None, "number": 0, "Linear": "Linear"}[kind]
+        return {"elliptical": "elliptical", "none": None, "number": 0, "Linear": "Linear", "nparray0": np.array("circular"),
+                "nparray1": np.array(["linear"])}[kind]
     return {"number": 5, "string": "abc", "list_of_scalars": [1, 2, 3]}[kind]
 
 
@@ -192,7 +194,9 @@ def assign_case(draw):
 def attrs(z):
     import pulsarbat as pb
 
-    out = {"sample_rate": z.sample_rate, "start_time": None if z.start_time is None else (z.start_time.jd1, z.start_time.jd2), "meta": z.meta}
+    t = z.start_time
+    loc = None if t is None or t.location is None else tuple(float(v) for v in t.location.to_geocentric()[0:3] for v in [v.to_value(u.m)])
+    out = {"sample_rate": z.sample_rate, "start_time": None if t is None else (t.jd1, t.jd2, t.scale, loc), "meta": z.meta}
     if isinstance(z, pb.RadioSignal):
         out.update(center_freq=z.center_freq, chan_bw=z.chan_bw, freq_align=z.freq_align)
     if isinstance(z, pb.DualPolarizationSignal):
